@@ -42,6 +42,7 @@ def run(ctx):
     passes(ctx, facts)
     samplers(ctx, facts)
     truncation_formula(ctx, facts)
+    sensitivity_wiring(ctx, facts)
     ctx.assume("the numerical law of the samplers (probabilities, find_smallest_n, achieved delta) is not decided; rand's Bernoulli/Uniform are trusted")
 
 
@@ -625,3 +626,119 @@ def truncation_formula(ctx, facts):
             if (F.callee(t)[0] or "").endswith("insecure::pow_u32") and "Iterator::next" in str(flow.expr_of(r_, t["args"][1], max_depth=25)) and "powf" in str(flow.expr_of(r_, t["args"][0], max_depth=25)):
                 acc = True
     ctx.ob("SHAPE-eq11", "right_hand_side:accumulates-r^k", acc, "result += r^k for the loop's k" if acc else "the loop body does not accumulate r^k of the loop variable", site_of(r_))
+
+
+# ---------------------------------------------------------------------------------------------
+def _walk(e):
+    if isinstance(e, tuple) and e and isinstance(e[0], str):
+        yield e
+        for x in e:
+            if isinstance(x, tuple):
+                if x and isinstance(x[0], str):
+                    yield from _walk(x)
+                else:
+                    for y in x:
+                        yield from _walk(y)
+
+
+def noise_reads(facts, root, fields, depth=0, seen=None):
+    """NoiseParams fields read, directly or through callees that are handed the struct, in the body tree of `root`.
+    A read is a projection `<parameter or captured variable>.<field>` with a NoiseParams field name."""
+    seen = seen if seen is not None else set()
+    if root in seen or depth > 4:
+        return set()
+    seen.add(root)
+    out = set()
+    for b in facts.tree(root):
+        exprs = []
+        for bb, t in b.calls():
+            exprs.extend(flow.expr_of(b, a, max_depth=12) for a in t["args"])
+            fn = F.callee(t)[0] or ""
+            # handed on as a whole?
+            for a in t["args"]:
+                e = flow.expr_of(b, a, max_depth=12)
+                bare = e[0] in ("arg", "upvar") and len(e) == 2
+                if bare and fn in facts.by_root and ("NoiseParams" in (b.local_ty(e[1]) if e[0] == "arg" else "NoiseParams")):
+                    if e[0] == "upvar" and "noise" not in str(e[1]):
+                        continue
+                    out |= noise_reads(facts, fn, fields, depth + 1, seen)
+        for bb, idx, s in b.iter_assigns():
+            r = s["r"]
+            for key in ("o", "a", "b"):
+                if key in r:
+                    exprs.append(flow.expr_of(b, r[key], max_depth=6))
+            for o in r.get("ops", []):
+                exprs.append(flow.expr_of(b, o, max_depth=6))
+        for e in exprs:
+            for n in _walk(e):
+                if n[0] in ("arg", "upvar") and len(n) == 3 and n[2] in fields:
+                    if n[0] == "arg" and "NoiseParams" not in b.local_ty(n[1]):
+                        continue
+                    out.add(n[2])
+    return out
+
+
+def sensitivity_wiring(ctx, facts):
+    ctx.rule("FIELDS-noise: where dp_for_histogram builds a NoiseParams with `..Default::default()`, every field that the consumers of that value read (the samplers it is handed to, transitively, and the OPRFPaddingDp::new calls fed from it) is explicitly initialised at that site, except the documented defaults (delta; for the binomial mechanism also success_prob and quantization_scale); all OPRFPaddingDp::new calls fed from a NoiseParams read the same field at the same argument position")
+    adt = facts.adts.get("protocol::dp::NoiseParams")
+    b = malsec.async_body(facts, "protocol::dp::dp_for_histogram")
+    if adt is None or b is None:
+        return ctx.missing("FIELDS-noise", "NoiseParams / dp_for_histogram")
+    ctx.count(bodies=1)
+    fields = [f["name"] for f in adt["variants"][0]["fields"]]
+    known = {"epsilon", "delta", "per_user_credit_cap", "success_prob", "dimensions", "quantization_scale", "ell_1_sensitivity", "ell_2_sensitivity", "ell_infty_sensitivity"}
+    ctx.ob("FIELDS-noise", "field-table", set(fields) == known, f"{len(fields)} fields, all classified" if set(fields) == known else f"NoiseParams has fields the rule has no default policy for: {sorted(set(fields) ^ known)}")
+    DEFAULT_OK = {"delta", "success_prob", "quantization_scale"}
+    dom = b.dominators()
+    sites = []
+    for bb, idx, s in b.iter_assigns():
+        r = s["r"]
+        if r["k"] == "agg" and (r.get("adt") or "").endswith("dp::NoiseParams"):
+            explicit = set()
+            for name, o in zip(fields, r["ops"]):
+                e = flow.expr_of(b, o, max_depth=8)
+                dflt = e[0] == "proj" and e[1][0] == "call" and e[1][1].endswith("Default::default")
+                if not dflt:
+                    explicit.add(name)
+            sites.append((bb, s["p"][0], explicit))
+    ctx.floor("FIELDS-noise", "NoiseParams construction sites in dp_for_histogram", len(sites), 2)
+    # consumers: calls dominated by the site that mention the constructed value
+    posreads = {}
+    for k, (sbb, local, explicit) in enumerate(sites):
+        reads = set()
+        al = flow.local_aliases_fwd(b, local)
+        for bb, t in b.calls():
+            if not flow.dominates(dom, sbb, bb) or any(flow.dominates(dom, o[0], bb) for o in sites if o[0] != sbb and flow.dominates(dom, sbb, o[0])):
+                continue
+            fn = F.callee(t)[0] or ""
+            for pos, a in enumerate(t["args"]):
+                e = flow.expr_of(b, a, max_depth=10)
+                hit = [n for n in _walk(e) if n[0] == "agg" and isinstance(n[1], tuple) and (n[1][0] or "").endswith("dp::NoiseParams")]
+                if not hit:
+                    continue
+                # a field of the value is passed ...
+                direct = [n for n in _walk(e) if n[0] == "proj" and n[1][0] == "agg" and isinstance(n[1][1], tuple) and (n[1][1][0] or "").endswith("dp::NoiseParams") and len(n) > 2 and n[2] in fields]
+                for n in direct:
+                    reads.add(n[2])
+                    if fn.endswith("OPRFPaddingDp::new"):
+                        posreads.setdefault(pos, set()).add((n[2], f"dp_for_histogram#{k}"))
+                # ... or the whole value is handed to a function that reads it
+                if not direct and fn in facts.by_root:
+                    reads |= noise_reads(facts, fn, set(fields))
+        bad = sorted(reads - explicit - DEFAULT_OK)
+        arm = "DiscreteLaplace" if "DiscreteLaplace" in str(flow.expr_of(b, {"cp": [local, ["f", 0, "epsilon"]]}, max_depth=6)) else ("Binomial" if "Binomial" in str(flow.expr_of(b, {"cp": [local, ["f", 0, "epsilon"]]}, max_depth=6)) else f"site{k}")
+        ctx.ob("FIELDS-noise", f"{arm}:consumers-read-initialised-fields", not bad and bool(reads), f"consumers read {sorted(reads)}; explicitly set {sorted(explicit)}" if not bad and reads else (f"a consumer of the {arm} NoiseParams reads {bad}, which this site leaves at Default::default(): the noise is calibrated with the default instead of the configured value" if bad else "no consumer of the constructed NoiseParams found"), site_of(b, sbb))
+    # sibling agreement of the OPRFPaddingDp::new calls fed from a NoiseParams parameter
+    for body in facts.non_test_bodies():
+        if not body.path.startswith("protocol::dp::"):
+            continue
+        for bb, t in body.calls():
+            if (F.callee(t)[0] or "").endswith("OPRFPaddingDp::new"):
+                for pos, a in enumerate(t["args"]):
+                    e = flow.expr_of(body, a, max_depth=8)
+                    if e[0] == "arg" and len(e) == 3 and e[2] in fields and "NoiseParams" in body.local_ty(e[1]):
+                        posreads.setdefault(pos, set()).add((e[2], body.path))
+    for pos in sorted(posreads):
+        names = {n for n, _ in posreads[pos]}
+        ctx.ob("FIELDS-noise", f"OPRFPaddingDp::new#arg{pos}:same-field-everywhere", len(names) == 1, f"argument {pos} is NoiseParams.{sorted(names)[0]} at all {len(posreads[pos])} sites" if len(names) == 1 else f"argument {pos} of OPRFPaddingDp::new is read from different NoiseParams fields: {sorted(posreads[pos])}")
+    ctx.floor("FIELDS-noise", "OPRFPaddingDp::new argument positions fed from NoiseParams", len(posreads), 3)
